@@ -15,7 +15,7 @@ ASSUMPTIONS = ["time.Ticker / time.Timer deliver at most one buffered value and 
 def corpus():
     return ["raterun.stop inflight 5 40 10", "raterun.stop due 5 40 10", "raterun.stop idle 5 40 10",
             "raterun.stop cancel 5 40 10", "raterun.switch 10 60 30 0", "raterun.switch 10 60 30 1",
-            "raterun.count 10 120",
+            "raterun.count 10 120", "raterun.newstart 350 100 400", "raterun.newstart 150 50 300",
             # the runner's user: an interrupted run must still wait for a progress tick that is being reported
             "run prop=C18 mode=constant rate=2/100ms dur=2500 conc=2 body=5 cancel=1100 stallprogress=500",
             "run prop=C18 mode=users conc=2 dur=1400 body=5 stallprogress=300"]
